@@ -10,7 +10,7 @@ from niltype import Nil
 
 from ..codec import src, unsrc
 from ..common import shard_items, verdict
-from ..runner import Acc, parallel
+from ..runner import Acc, parallel, parallel_fresh
 from ..terms import E, show, try_build
 from ..universe import INT, NONE, S, STR, call, universe
 from ..values import dedup, value_universe
@@ -89,8 +89,94 @@ def pair_check(ta, a, tb, b, tier):
     return out, r
 
 
+CUSTOM_PROBES = [1, "a", None, [1], ["a"], {"a": 1}, {"a": "a"}, [], {}]
+
+
+def custom_objects():
+    """User-defined schema types (two of them sharing the plain Props class, plus the forwarding
+    type of C16) bare and in every container position, next to their built-in counterparts."""
+    from d42 import schema
+    from .. import fwdtype  # noqa: F401  (registers the types)
+    atoms = {"mc_num": lambda: schema.mc_num, "mc_text": lambda: schema.mc_text,
+             "fwd(int)": lambda: fwdtype.wrap(schema.int), "fwd(str)": lambda: fwdtype.wrap(schema.str),
+             "int": lambda: schema.int, "str": lambda: schema.str}
+    shapes = {"{}": lambda x: x, "list({})": lambda x: schema.list(x), "list([{}])": lambda x: schema.list([x]),
+              "dict(a: {})": lambda x: schema.dict({"a": x}), "any({}, none)": lambda x: schema.any(x, schema.none),
+              "alias({})": lambda x: schema.alias("C", x)}
+    out = []
+    for sn, mk in shapes.items():
+        for an, atom in atoms.items():
+            out.append((sn.format(an), lambda mk=mk, atom=atom: mk(atom())))
+    return out
+
+
+def custom_block(acc):
+    objs = [(name, mk(), mk) for name, mk in custom_objects()]
+    for (na, a, mka), (nb, b, _) in itertools.product(objs, repeat=2):
+        acc.count("comparisons")
+        acc.count("custom_type_pairs")
+        case = {"custom_pair": [na, nb]}
+        r, back = eq3(a, b), eq3(b, a)
+        if r != back:
+            acc.violation("C15|custom-types|not-symmetric", case)
+        try:
+            ne = (a != b)
+        except Exception as e:  # noqa: BLE001
+            ne = "raises:" + type(e).__name__
+        if isinstance(r, bool) and ne is not (not r):
+            acc.violation("C15|custom-types|ne-is-not-negation-of-eq", case)
+        if na == nb and (r is not True or eq3(a, mka()) is not True):
+            acc.violation("C15|custom-types|not-equal-to-self-or-rebuild", case)
+        if r is True and any(verdict(a, v) != verdict(b, v) for v in CUSTOM_PROBES):
+            acc.violation("C15|custom-types|equal-but-verdicts-differ", case)
+
+
+def replay_custom(case):
+    acc = Acc()
+    custom_block(acc)
+    return sorted(acc.viol)
+
+
+def reuse_worker(shard, nshards, tier, seed):
+    """Short-lived right-hand operands: a long-lived schema is compared with a succession of
+    schemas that are built, compared and dropped (later ones reuse the addresses of earlier ones)."""
+    acc = Acc()
+    C = core(tier)
+    from ..common import shape_key
+    order = sorted(range(len(C)), key=lambda i: repr(shape_key(C[i])))
+    lo, hi = shard * len(order) // nshards, (shard + 1) * len(order) // nshards
+    for i in order[lo:hi]:
+        ta = C[i]
+        a, _ = try_build(ta)
+        if a is None:
+            continue
+        # neighbours of the same shape first (that is where equal and unequal operands alternate)
+        near = [j for j in order if shape_key(C[j]) == shape_key(ta)]
+        for j in near + order[::7]:
+            b, _ = try_build(C[j])
+            if b is None:
+                continue
+            acc.count("short_lived_comparisons")
+            r, back = eq3(a, b), eq3(b, a)
+            if r != back:
+                acc.violation(f"C15|not-symmetric|{cls(a)}~{cls(b)}",
+                              {"a": src(ta), "b": src(C[j]), "a_show": show(ta), "b_show": show(C[j]),
+                               "tier": tier})
+            elif r is True and j != i:
+                for v in probes(ta, C[j], tier)[:30]:
+                    if verdict(a, v) != verdict(b, v):
+                        acc.violation(f"C15|equal-but-verdicts-differ|{cls(a)}~{cls(b)}",
+                                      {"a": src(ta), "b": src(C[j]), "a_show": show(ta),
+                                       "b_show": show(C[j]), "tier": tier})
+                        break
+            del b
+    return acc
+
+
 def worker(shard, nshards, tier, seed):
     acc = Acc()
+    if shard == 0:
+        custom_block(acc)
     C = core(tier)
     built = []
     for t in C:
@@ -184,6 +270,7 @@ def worker(shard, nshards, tier, seed):
 
 def run(tier, seed):
     acc = parallel(worker, tier, seed, warm_pass=True)
+    acc.merge(parallel_fresh(reuse_worker, tier, seed, nshards=16))
     cov = {
         "states": acc.n["schemas"] + acc.n["variants"],
         "transitions": acc.n["comparisons"],
@@ -195,12 +282,16 @@ def run(tier, seed):
                 "equal pairs of distinct terms + unequal variant pairs",
         "exhaustive": True,
         "bounds": {"tier": tier, "probe_values_per_term": PROBE_LIMIT[tier]},
+        "custom_type_pairs": acc.n["custom_type_pairs"],
+        "short_lived_comparisons": acc.n["short_lived_comparisons"],
     }
     return acc, cov, ["differently built schemas with the same meaning may be equal or unequal",
-                      "schema == value <=> validate is decided in C02 on the same universe"]
+                      "schema == value <=> validate is checked here in both operand orders (and in C02)"]
 
 
 def replay(case):
+    if "custom_pair" in case:
+        return replay_custom(case)
     ta, tb = unsrc(case["a"]), unsrc(case["b"])
     a, _ = try_build(ta)
     b, _ = try_build(tb)
